@@ -558,6 +558,28 @@ func (v *View) checkC08(res *Result) {
 			res.Obs["c08.demotes"]++
 			if D[e.Inst] >= P[e.Inst] {
 				cause := v.demoteCause(idx)
+				// Which side of the term's "OnPromote is being delivered" signal was this? The
+				// library signals, then calls into the user's OnPromote; a demotion that waited
+				// for the signal can enter the user's OnDemote within that handful of
+				// instructions (the library cannot observe the entry into a user callback: the
+				// recorded residual window). If the goroutine that delivers this term's
+				// OnPromote was already past its entry when OnDemote was entered, and its
+				// OnPromote is entered at the same virtual instant, it is that window; if the
+				// goroutine had not even started, the demotion did not wait at all.
+				for j := idx + 1; j < len(v.Ev) && j < idx+400 && v.Ev[j].VT == e.VT; j++ {
+					if v.Ev[j].Kind == "cb.promote" && v.Ev[j].Inst == e.Inst {
+						for i := idx - 1; i >= 0 && i > idx-4000; i-- {
+							if v.Ev[i].Kind == "site" && v.Ev[i].S == "promoteGoroutineEntry" && v.Ev[i].G == v.Ev[j].G {
+								cause = "promote-goroutine-past-its-start"
+								break
+							}
+							if v.Ev[i].Kind == "flag" && v.Ev[i].Inst == e.Inst && v.Ev[i].Flag {
+								break // the term began here (goroutine ids are reused: look no further back)
+							}
+						}
+						break
+					}
+				}
 				res.viol("C08", "alternation", "demote-without-promote:"+cause, fmt.Sprintf("%s: demotion callback with P=%d D=%d (%s)", e.Inst, P[e.Inst], D[e.Inst]+1, cause), idx)
 			}
 			D[e.Inst]++
@@ -710,7 +732,11 @@ func (v *View) checkC18(res *Result) {
 			}
 			res.Obs["c18.snapshots"]++
 			if sn.IsLeader != (sn.State == "LEADER") {
-				res.viol("C18", "snapshot", fmt.Sprintf("isleader=%v:state=%s:%s", sn.IsLeader, sn.State, v.lastTermCause(e.Inst, idx)), fmt.Sprintf("%s Status(): IsLeader=%v State=%s", e.Inst, sn.IsLeader, sn.State), idx)
+				sig := fmt.Sprintf("isleader=%v:state=%s:%s", sn.IsLeader, sn.State, v.lastTermCause(e.Inst, idx))
+				if v.startCtxEnded(e.Inst, idx) {
+					sig += ":start-context-ended"
+				}
+				res.viol("C18", "snapshot", sig, fmt.Sprintf("%s Status(): IsLeader=%v State=%s", e.Inst, sn.IsLeader, sn.State), idx)
 			}
 			if !docStates[sn.State] {
 				res.viol("C18", "state-doc", "undocumented-state", e.Inst+" state "+sn.State, idx)
@@ -885,7 +911,11 @@ func (v *View) checkC19(res *Result) {
 		if active {
 			res.Obs["c19.live_checks"]++
 			if done {
-				res.viol("C19", "cancelled-early", "cancelled-while-leading", fmt.Sprintf("%s term %s: promotion context done while the instance still leads that term", e.Inst, e.Token), idx)
+				sig := "cancelled-while-leading"
+				if v.startCtxEnded(e.Inst, idx) {
+					sig += ":start-context-ended" // the application ended the Start context and made no stop call
+				}
+				res.viol("C19", "cancelled-early", sig, fmt.Sprintf("%s term %s: promotion context done while the instance still leads that term", e.Inst, e.Token), idx)
 			}
 		} else {
 			res.Obs["c19.ended_checks"]++
